@@ -1132,6 +1132,120 @@ def _proxy_forwarder_ok():
     return "true" if ok else "false"
 
 
+# ---- C06 : remote_exec ---------------------------------------------------------------------------------
+
+
+@fact("init_popen_ops", "list FdTable.fdop", "[]")
+def _init_popen_ops():
+    """the descriptor operations of init_popen_io's POSIX branch, in source order (the win32-only block excluded);
+    variables: 0 = dup of fd 0, 1 = dup of fd 1, 2 = the devnull descriptor"""
+    f = find("gateway_base.py", "init_popen_io")
+    top = [n for n in _body_nodoc(f) if isinstance(n, ast.If)]
+    if len(top) != 1 or _src(top[0].test) != "not hasattr(os, 'dup')":
+        raise LookupError("init_popen_io shape")
+    ops = []
+    var = {}
+
+    def arg(a):
+        if isinstance(a, ast.Constant) and isinstance(a.value, int):
+            return "(FdTable.Lit %d)" % a.value
+        if isinstance(a, ast.Name) and a.id in var:
+            return "(FdTable.Var %d)" % var[a.id]
+        raise LookupError("fd argument " + _src(a))
+
+    def visit(stmts):
+        for st in stmts:
+            if isinstance(st, ast.If) and "os.name == 'nt'" in _src(st.test):
+                continue
+            if isinstance(st, ast.Try):
+                continue   # devnull = os.devnull
+            calls = [c for c in ast.walk(st) if isinstance(c, ast.Call) and _src(c.func) in ("os.dup", "os.open", "os.dup2", "os.close")]
+            for c in sorted(calls, key=lambda c: (c.lineno, c.col_offset)):
+                fn = _src(c.func)
+                if fn == "os.dup":
+                    src_fd = c.args[0].value
+                    v = {0: 0, 1: 1}[src_fd]
+                    ops.append("FdTable.ODup (FdTable.Lit %d) %d" % (src_fd, v))
+                elif fn == "os.open":
+                    if _src(c.args[0]) != "devnull":
+                        raise LookupError("os.open of " + _src(c.args[0]))
+                    w = {"os.O_RDONLY": "false", "os.O_WRONLY": "true"}[_src(c.args[1])]
+                    if not (isinstance(st, ast.Assign) and _src(st.targets[0]) == "fd"):
+                        raise LookupError("os.open result")
+                    var["fd"] = 2
+                    ops.append("FdTable.OOpenNull %s 2" % w)
+                elif fn == "os.dup2":
+                    ops.append("FdTable.ODup2 %s %s" % (arg(c.args[0]), arg(c.args[1])))
+                else:
+                    ops.append("FdTable.OClose %s" % arg(c.args[0]))
+
+    visit(top[0].orelse)
+    return "[" + "; ".join(ops) + "]"
+
+
+@fact("init_popen_io_built_on_saved_fds", "bool", "false")
+def _init_popen_io_built_on_saved_fds():
+    """the IO object is built on the dup'ed descriptors, sys.stdin/sys.stdout are re-opened on fds 0/1 (devnull)"""
+    t = _src(find("gateway_base.py", "init_popen_io"))
+    need = ["stdin = execmodel.fdopen(os.dup(0), 'r', 1)", "stdout = execmodel.fdopen(os.dup(1), 'w', 1)", "io = Popen2IO(stdout, stdin, execmodel)",
+            "sys.stdin = execmodel.fdopen(0, 'r', 1, closefd=False)", "sys.stdout = execmodel.fdopen(1, 'w', 1, closefd=False)"]
+    return "true" if all(x in t for x in need) else "false"
+
+
+@fact("purity_shadow_checked", "bool", "false")
+def _purity_shadow_checked():
+    """a Name outside co_varnames is reported unless it is a builtin that the function's module does not rebind: the
+    test is `node.id not in builtins.__dict__ or shadowed(node.id)`, shadowed() looks the name up in the module globals
+    passed by _source_of_function (function.__globals__)"""
+    g = find("gateway.py", "_find_non_builtin_globals")
+    t = _src(g)
+    ok = "if node.id not in vars and (node.id not in builtins.__dict__ or shadowed(node.id)):\n                found.append(node.id)" in t
+    sh = [n for n in g.body if isinstance(n, ast.FunctionDef) and n.name == "shadowed"]
+    ok = ok and len(sh) == 1 and "name in module_globals" in _src(sh[0]) and "module_globals[name] is not builtins.__dict__[name]" in _src(sh[0])
+    ok = ok and "used_globals = _find_non_builtin_globals(source, codeobj, function.__globals__)" in _src(find("gateway.py", "_source_of_function"))
+    return "true" if ok else "false"
+
+
+@fact("purity_global_stmt_checked", "bool", "false")
+def _purity_global_stmt_checked():
+    """every name of an ast.Global node (any depth) is reported"""
+    t = _src(find("gateway.py", "_find_non_builtin_globals"))
+    return "true" if "elif isinstance(node, ast.Global):\n            found.extend(node.names)" in t and "return found" in t else "false"
+
+
+@fact("purity_check_shape_ok", "bool", "false")
+def _purity_check_shape_ok():
+    """_source_of_function: lambda refused, first argument must be `channel`, closures refused, every ast.Name of the
+    dedented source outside co_varnames and builtins refused, (firstlineno - 1) newlines prepended"""
+    t = _src(find("gateway.py", "_source_of_function"))
+    need = ["if function.__name__ == '<lambda>':\n        raise ValueError(", "if not args or args[0] != 'channel':\n        raise ValueError(", "if closure is not None:\n        raise ValueError(",
+            "source = textwrap.dedent(source)", "if used_globals:\n        raise ValueError(", "leading_ws = '\\n' * (codeobj.co_firstlineno - 1)\n    return leading_ws + source"]
+    ok = all(x in t for x in need)
+    g = _src(find("gateway.py", "_find_non_builtin_globals"))
+    ok = ok and "vars = dict.fromkeys(codeobj.co_varnames)" in g and "for node in ast.walk(ast.parse(source))" in g and "if isinstance(node, ast.Name):" in g and "node.id not in vars" in g
+    return "true" if ok else "false"
+
+
+@fact("remote_exec_shape_ok", "bool", "false")
+def _remote_exec_shape_ok():
+    """Gateway.remote_exec: kwargs without a function -> TypeError before anything is sent; the tuple (source, file_name,
+    call_name, kwargs) travels through dumps_internal; worker: namespace with channel and __name__, compile(source + newline,
+    file_name or '<remote exec>'), call by name with channel and kwargs, _executing set around it, close on every path;
+    Channel.close refuses while _executing"""
+    t = _src(find("gateway.py", "Gateway.remote_exec"))
+    i = t.find("if not call_name and kwargs:\n        raise TypeError(")
+    j = t.find("channel = self.newchannel()")
+    k = t.find("self._send(Message.CHANNEL_EXEC, channel.id, gateway_base.dumps_internal((source, file_name, call_name, kwargs)))")
+    ok = 0 <= i < j < k and "source = textwrap.dedent(str(source))" in t and "source = _source_of_function(source)" in t
+    e = _src(find("gateway_base.py", "WorkerGateway._executetask"))
+    need = ["loc: dict[str, Any] = {'channel': channel, '__name__': '__channelexec__'}", "channel._executing = True", "co = compile(source + '\\n', file_name or '<remote exec>', 'exec')", "exec(co, loc)",
+            "function = loc[call_name]\n                function(channel, **kwargs)", "finally:\n            channel._executing = False", "channel.close(errortext)", "channel.close()"]
+    ok = ok and all(x in e for x in need)
+    c = _src(find("gateway_base.py", "Channel.close"))
+    ok = ok and "if self._executing:\n        raise OSError(" in c
+    return "true" if ok else "false"
+
+
 # ---- C18 : channel ids -------------------------------------------------------------------------------
 
 
@@ -1260,6 +1374,9 @@ DIGESTS = [
     ("multi.py", "Group._unregister"),
     ("multi.py", "Group.__getitem__"),
     ("multi.py", "Group.__contains__"),
+    ("gateway.py", "_source_of_function"),
+    ("gateway.py", "_find_non_builtin_globals"),
+    ("gateway_base.py", "init_popen_io"),
     ("gateway_io.py", "ProxyIO"),
     ("gateway_io.py", "serve_proxy_io"),
     ("gateway_socket.py", "SocketIO"),
@@ -1287,7 +1404,7 @@ def main() -> int:
         "(* GENERATED by tools/gen_facts.py from %s on every run -- do not edit *)" % SRC,
         "From Coq Require Import ZArith List String.",
         "Import ListNotations.",
-        "Require Import EV.model.Cfg EV.model.GroupIds EV.model.Ids EV.model.Boot.",
+        "Require Import EV.model.Cfg EV.model.GroupIds EV.model.Ids EV.model.Boot EV.model.FdTable.",
         "Open Scope string_scope.",
         "",
     ]
